@@ -1217,3 +1217,15 @@ func (fv *FuncVer) skolemize(g *Term) *Term {
 	}
 	return g
 }
+
+
+func (fv *FuncVer) curPos(st *State) token.Pos {
+	if len(st.frames) == 0 {
+		return token.NoPos
+	}
+	f := st.top()
+	if f.block != nil && f.ip < len(f.block.Instrs) {
+		return f.block.Instrs[f.ip].Pos()
+	}
+	return token.NoPos
+}
